@@ -9,6 +9,7 @@ Import ListNotations.
 Inductive act :=
 | ALock | ARLock | AUnlock | ARUnlock
 | ARead (m : nat) | AWrite (m : nat)
+| AARead (m : nat) | AAWrite (m : nat)   (* sync/atomic load / store of field m: needs no lock, never races *)
 | AExt          (* a call into code that may re-enter the VM (autoload, user callbacks) *)
 | AOpaque.      (* a construct the source walker does not understand: fails closed *)
 Inductive lmode := Free | Shared | Excl.
@@ -28,6 +29,7 @@ Fixpoint wl (h : lmode) (p : list act) : bool :=
     | ARead _, (Shared | Excl) => wl h r
     | AWrite _, Excl => wl h r
     | AExt, Free => wl Free r
+    | AARead _, _ | AAWrite _, _ => wl h r
     | _, _ => false
     end
   end.
@@ -37,9 +39,33 @@ Definition well_locked (tbl : table) : bool := forallb (fun e => wl Free (snd e)
 (* the entries that fail, for diagnosis *)
 Definition ill_locked (tbl : table) : list string := map fst (filter (fun e => negb (wl Free (snd e))) tbl).
 
+(* check-then-act on an atomic flag: an entry that both tests field m atomically and stores to it must do the
+   test and the store inside ONE exclusive section (test first).  A store to a field the entry never tests (a
+   counter) is unconstrained.  Decidable, structural; used as a regenerated obligation next to `wl`. *)
+Definition nmem (x : nat) (l : list nat) : bool := existsb (Nat.eqb x) l.
+Definition tested_fields (p : list act) : list nat :=
+  flat_map (fun a => match a with AARead m => [m] | _ => [] end) p.
+Fixpoint cta (tested : list nat) (h : lmode) (seen : list nat) (p : list act) : bool :=
+  match p with
+  | [] => true
+  | a :: r =>
+    match a with
+    | ALock => cta tested Excl [] r
+    | ARLock => cta tested Shared [] r
+    | AUnlock | ARUnlock => cta tested Free [] r
+    | AARead m => cta tested h (m :: seen) r
+    | AAWrite m =>
+        (negb (nmem m tested) || (match h with Excl => nmem m seen | _ => false end)) && cta tested h seen r
+    | _ => cta tested h seen r
+    end
+  end.
+Definition check_then_act_ok (tbl : table) : bool := forallb (fun e => cta (tested_fields (snd e)) Free [] (snd e)) tbl.
+Definition cta_bad (tbl : table) : list string :=
+  map fst (filter (fun e => negb (cta (tested_fields (snd e)) Free [] (snd e))) tbl).
+
 (* a real execution path of a method performs the lock operations of its table entry and a
    sub-multiset-with-repetition of its accesses (branches skip accesses, loops repeat them) *)
-Definition is_access (a : act) : bool := match a with ARead _ | AWrite _ | AExt => true | _ => false end.
+Definition is_access (a : act) : bool := match a with ARead _ | AWrite _ | AARead _ | AAWrite _ | AExt => true | _ => false end.
 Inductive sub : list act -> list act -> Prop :=
 | sub_nil : sub [] []
 | sub_keep a p q : sub p q -> sub (a :: p) (a :: q)
@@ -54,7 +80,7 @@ Inductive sub : list act -> list act -> Prop :=
 Definition act_eqb (a b : act) : bool :=
   match a, b with
   | ALock, ALock | ARLock, ARLock | AUnlock, AUnlock | ARUnlock, ARUnlock | AExt, AExt | AOpaque, AOpaque => true
-  | ARead m, ARead n | AWrite m, AWrite n => Nat.eqb m n
+  | ARead m, ARead n | AWrite m, AWrite n | AARead m, AARead n | AAWrite m, AAWrite n => Nat.eqb m n
   | _, _ => false
   end.
 Fixpoint subb (p q : list act) : bool :=
@@ -87,7 +113,7 @@ Definition step (s : state) (i : nat) : option state :=
     | ALock => if nobody is_held s then Some (upd s i (Excl, r)) else None
     | ARLock => if nobody is_excl s then Some (upd s i (Shared, r)) else None
     | AUnlock | ARUnlock => Some (upd s i (Free, r))
-    | ARead _ | AWrite _ | AExt | AOpaque => Some (upd s i (h, r))
+    | ARead _ | AWrite _ | AARead _ | AAWrite _ | AExt | AOpaque => Some (upd s i (h, r))
     end
   end.
 Fixpoint run (s : state) (sched : list nat) : state :=
@@ -154,6 +180,17 @@ Proof.
     intros _ j hj pj Nj Hj. eapply (X i j); eauto.
   - intros H; inversion H; subst. apply G; auto; [|discriminate].
     intros _ j hj pj Nj Hj. eapply (X i j); eauto.
+  (* atomic load / store: the thread keeps whatever it holds (Free, Shared, Excl; twice) *)
+  - intros H; inversion H; subst. apply G; auto; discriminate.
+  - intros H; inversion H; subst. apply G; auto; [discriminate|].
+    intros _ j hj pj Nj Hj E. subst hj. assert (Shared = Free) by (eapply (X j i); eauto). discriminate.
+  - intros H; inversion H; subst. apply G; auto; [|discriminate].
+    intros _ j hj pj Nj Hj. eapply (X i j); eauto.
+  - intros H; inversion H; subst. apply G; auto; discriminate.
+  - intros H; inversion H; subst. apply G; auto; [discriminate|].
+    intros _ j hj pj Nj Hj E. subst hj. assert (Shared = Free) by (eapply (X j i); eauto). discriminate.
+  - intros H; inversion H; subst. apply G; auto; [|discriminate].
+    intros _ j hj pj Nj Hj. eapply (X i j); eauto.
   - intros H; inversion H; subst. apply G; auto; discriminate.
 Qed.
 
@@ -191,21 +228,29 @@ Proof.
   - destruct h; try discriminate; auto.
   - destruct a, h; try discriminate; auto.
 Qed.
-(* under a held lock a balanced region can only be empty or start with an access; in both cases
-   it can be dropped / doubled without breaking the discipline *)
+(* under a held lock a balanced region can only consist of atomic accesses (a lock operation or a call-out
+   would be rejected); so it can be dropped / doubled without breaking the discipline *)
+Lemma wl_region_held reg : forall h q, h <> Free -> wl Free reg = true -> wl h (reg ++ q) = true ->
+  wl h q = true /\ forall p, wl h p = true -> wl h (reg ++ p) = true.
+Proof.
+  induction reg as [|a reg IH]; intros h q NF R W; simpl in *; [split; auto|].
+  destruct a; destruct h; simpl in *; try discriminate; try congruence;
+    try (destruct (IH _ q NF R W) as [A B]; split; auto; fail);
+    (destruct (IH Shared q) as [A B] || destruct (IH Excl q) as [A B]); auto; try discriminate.
+Qed.
 Lemma wl_region_skip reg h q : wl Free reg = true -> wl h (reg ++ q) = true -> wl h q = true.
 Proof.
   intros R W. destruct h.
   - rewrite (wl_app_eq reg Free q R) in W. exact W.
-  - destruct reg as [|a reg]; auto. destruct a; simpl in *; discriminate.
-  - destruct reg as [|a reg]; auto. destruct a; simpl in *; discriminate.
+  - apply (wl_region_held reg Shared q); auto; discriminate.
+  - apply (wl_region_held reg Excl q); auto; discriminate.
 Qed.
 Lemma wl_region_rep reg h p q : wl Free reg = true -> wl h (reg ++ q) = true -> wl h p = true -> wl h (reg ++ p) = true.
 Proof.
   intros R Wq W. destruct h.
   - rewrite (wl_app_eq reg Free p R). exact W.
-  - destruct reg as [|a reg]; auto. destruct a; simpl in *; discriminate.
-  - destruct reg as [|a reg]; auto. destruct a; simpl in *; discriminate.
+  - apply (wl_region_held reg Shared q); auto; discriminate.
+  - apply (wl_region_held reg Excl q); auto; discriminate.
 Qed.
 Lemma wl_sub q : forall p h, sub p q -> wl h q = true -> wl h p = true.
 Proof.
